@@ -40,6 +40,24 @@ def main(tier):
         if ex:
             ev.sample({"part": part, "act": ex[0], "to_k": g.obs[ex[1]]["k_set"]}, 3)
     ev.parts["transitions_by_action"] = ops
+    # ---- beyond the TLC bounds: graphs on 80-140 vertices with hubs, every route against brute-force clique enumeration
+    import os
+    work = os.path.join(vf.BUILD, "work", "%s_big_%d" % (PROP, os.getpid()))
+    os.makedirs(work, exist_ok=True)
+    bbin = vf.build_many([dict(name="st_bigflag", src="st_bigflag.cpp", defines=[])], 1)[0]
+    bout = os.path.join(work, "big.ndjson")
+    ngraphs = 6 if tier == "quick" else 60
+    _, died = vf.run_recorder([bbin, bout, str(vf.seed()), str(ngraphs)], timeout=1500)
+    recs = vf.read_ndjson(bout, tolerant=True) if os.path.exists(bout) else []
+    if died and not any(r.get("kind") == "summary" for r in recs) and not any(r.get("kind") in ("crash", "deviation") for r in recs):
+        unknown.append({"part": "big_graphs", **died})
+    for r in recs:
+        if r.get("kind") in ("crash", "deviation"):
+            unknown.append({"part": "big_graphs", **r})
+        elif r.get("kind") == "summary":
+            ev.parts["big_graphs"] = {k: r[k] for k in ("graphs", "routes", "simplices")}
+            ev.parts["big_graphs"]["oracle"] = "brute-force clique enumeration in the harness (CliqueComplex / FlagValue of SimplexTree.tla); 5 routes + the reported count"
+            total += r["routes"]
     ev.cov["evaluations"] = total
     ev.cov["distinct_nontrivial"] = ev.cov["states"]
     ev.cov["exhaustive"] = True
